@@ -440,6 +440,12 @@ def install_python(ex, w):
                         w._list_items[tag].cells[8 * k] = (8, it)
                     it.obj.tag["kind"] = kd
                     it.obj.cells[8] = (8, Ptr(w.type_object({0: 1 << 24, 3: 1 << 28}.get(kd, 0)), 0))   # LONG / UNICODE subclass bits
+                    if kd == 1:
+                        # a float is an instance of PyFloat_Type itself (PyFloat_Check compares the type pointers)
+                        ft = ex_.global_ptr("PyFloat_Type")
+                        ft.obj.cells.setdefault(168, (8, z3.BitVecVal(0, 64)))
+                        ft.obj.cells.setdefault(24, w.type_object(0).cells[24])
+                        it.obj.cells[8] = (8, ft)
                     it.obj.tag["ival"] = z3.BitVec("item_int_%s_%d" % (tag, k), 64)
                     it.obj.tag["fval"] = z3.BitVec("item_float_%s_%d" % (tag, k), 64)
                     if kd == 3:
@@ -680,6 +686,15 @@ class PyHarness(object):
                         vals.append(("vector_in", begin, end, begin.obj.arr))
                     else:
                         vals.append(("vector_in", begin, end, None))
+                elif p.kind() == "nativep" and p.intent == "inout" and p.attrs.get("rank") and not p.attrs.get("dimension"):
+                    # an assumed-shape array the library may change in place: it sees the items, the caller gets them back
+                    ebits = ir.size_of(ir.resolve(argt[k + len(vals)]).to) * 8
+                    if isinstance(v, Ptr) and v.obj is not None:
+                        ex_.flush(v.obj)
+                        vals.append(("array_in", v, ebits, v.obj.arr, bool(v.obj.live), v.obj.size))
+                    else:
+                        vals.append(("array_in", v, ebits, None, False, 0))
+                    outs.append((p.name, ("array_inout", v, p.name)))
                 elif p.kind() == "nativep" and p.intent == "in" and (p.attrs.get("rank") or p.attrs.get("dimension")):
                     ebits = ir.size_of(ir.resolve(argt[k + len(vals)]).to) * 8
                     if isinstance(v, Ptr) and v.obj is not None:
@@ -735,6 +750,13 @@ class PyHarness(object):
         for fname, f in m.functions.items():
             if "SHROUD_to_PyList_" in fname:
                 ex.stubs[fname] = to_pylist
+
+        def assert_fail(ex_, name, argv, argt, rt):
+            # an assert of the CPython headers (e.g. PyFloat_AS_DOUBLE on something that is not a float): the unchecked
+            # macro was applied to an object of another type; with NDEBUG it reads whatever lies there
+            msg = ex_.cstring_at(argv[0])
+            raise MemViolation("assertion", "a CPython header assertion fails: %s" % (msg.decode() if msg else "?"), ex_.e.model())
+        ex.stubs["__assert_fail"] = assert_fail
         self.cpython_reject = None
         if self.entry.get("static_of") and "METH_STATIC" not in self.entry["flags"]:
             # CPython: a method registered without METH_STATIC is a method descriptor; called through the class it takes its
@@ -993,6 +1015,9 @@ class PyHarness(object):
                 return "a void function does not return None"
             return None
         items = [tagv] if tagv is None or tagv[0] != "tuple" or not isinstance(tagv[1], list) else [(k, v) for (k, v) in tagv[1]]
+        # an object placed into the tuple with 'O' / 'N' is what it was built as
+        items = [(v.obj.tag["py"] if (k == "object" and isinstance(v, Ptr) and v.obj is not None and v.obj.tag.get("py")) else (k, v))
+                 for (k, v) in [it if it is not None else (None, None) for it in items]] if tagv is not None else items
         if tagv is None:
             return "the returned object was not built by the wrapper"
         if len(items) != len(want):
@@ -1039,6 +1064,18 @@ class PyHarness(object):
                     bad = z3.Or(n != ri["len"], z3.And(z3.ULT(idx, n), z3.Select(arr, off + idx) != z3.Select(ri["arr"], idx)))
                     if e.check(bad) == "sat":
                         return "the returned string is not the library's string"
+            elif wnt[0] == "out" and isinstance(wnt[2], tuple) and wnt[2][0] == "array_inout":
+                _, ptr, pname = wnt[2]
+                if k != "list":
+                    return "inout array argument '%s' is returned as %s" % (pname, k)
+                if not (isinstance(v["ptr"], Ptr) and isinstance(ptr, Ptr) and v["ptr"].obj is ptr.obj):
+                    return "the list returned for '%s' is not built from the buffer the library worked on" % pname
+                ins_ = in_params(sig)
+                jj = [j_ for j_, q_ in enumerate(ins_) if q_.name == pname]
+                ob = getattr(self.w, "argobj", {}).get(jj[0]) if jj else None
+                info = ob.obj.tag.get("as_list") if ob is not None else None
+                if info and info != "no" and e.check(v["size"] != len(info[1])) == "sat":
+                    return "the list returned for the inout array '%s' does not have as many items as the list that was passed" % pname
             elif wnt[0] == "out" and isinstance(wnt[2], tuple) and wnt[2][0] == "string":
                 _, wl, warr = wnt[2]
                 if k != "str":
@@ -1175,6 +1212,7 @@ def native_call(w):
                'int divide(int num, int *rem, int den, bool neg) { printf("LIB %d %d %d\\n", num, den, (int) neg); *rem = 13; return 6; }',
                'void fill2(int nrow, int ncol, double *out) { printf("LIB %d %d\\n", nrow, ncol); for (int i = 0; i < nrow * (ncol - 1); i++) out[i] = i; }',
                'int *getRow(int n) { static int row[4096]; printf("LIB %d\\n", n); return row; }',
+               'int bump(int *v, int n) { printf("LIB"); for (int i = 0; i < n; i++) { printf(" %d", v[i]); v[i] += 1; } printf(" | %d\\n", n); return 6; }',
                'size_t findPos(int k) { printf("LIB %d\\n", k); return (size_t) -1; }',
                'int Tally::total() { printf("LIB\\n"); return 41; }',
                'int Tally::scaled(int k) { printf("LIB %d\\n", k); return 42; }',
@@ -1266,8 +1304,11 @@ def native_call(w):
             if got[:len(want)] != want:
                 return "%s: the library received %r natively, the call supplies %r" % (call, got, want)
             res = [l for l in out.splitlines() if l.startswith("RESULT")]
-            expect = {"findPos": "18446744073709551615", "Tally.total": "41", "Tally.scaled": "42", "tag": "(100, 'ab\\x00cd')", "countNames": "23", "add": "7", "scale": "2.5", "isPositive": "True", "noArgs": "None", "getName": "'nm'", "setName": "None", "len": "3",
+            expect = {"bump": "(6, [4, 4])", "findPos": "18446744073709551615", "Tally.total": "41", "Tally.scaled": "42", "tag": "(100, 'ab\\x00cd')", "countNames": "23", "add": "7", "scale": "2.5", "isPositive": "True", "noArgs": "None", "getName": "'nm'", "setName": "None", "len": "3",
                       "divmod": "(11, 13)", "divide": "(6, 13)", "stride": "9", "toggle": "4", "pick": "3" if w["supplied"] == 3 else "1"}
+            if w["function"] == "bump" and lists:
+                li_ = [v_ for v_ in lists.values() if v_ != "not a sequence"][0]
+                expect["bump"] = "(6, [%s])" % ", ".join("4" for _ in li_)
             if w["function"] in expect and res and res[0].split(" ", 1)[1] != expect[w["function"]]:
                 return "%s returns %s natively, the library's result is %s" % (call, res[0].split(" ", 1)[1], expect[w["function"]])
             if w["function"] == "fill2" and res:
